@@ -173,6 +173,32 @@ theorem bool_get_set (n : Node) (f : Field) (b : Bytes) (v : Bool) (hd : f.disc 
 theorem bool_set_frame (b : Bytes) (bit : Nat) (v : Bool) (a : Nat) (h : a ≠ bit / 8) : setBit b bit v a = b a := by
   unfold setBit; rw [if_neg h]
 
+/-- **a Text field round-trips every value, the empty string included, whatever its schema default**: the setter of a
+    defaulted field never stores the null pointer that its getter would read as the default -/
+theorem text_get_set (d v : List Nat) : genGetText d (genSetText d v) = v := by
+  unfold genGetText genSetText structSetText structSetNewText textDefault
+  by_cases hd : d = []
+  · by_cases hv : v = [] <;> simp [hd, hv]
+  · simp [hd]
+
+/-- … and `SetText` for a defaulted field would not do: the empty string written reads back as the default -/
+theorem text_settext_loses_empty (d : List Nat) (hd : d ≠ []) : genGetText d (structSetText []) ≠ [] := by
+  simpa [genGetText, structSetText, textDefault] using hd
+
+/-- **setting an interface-typed union member makes it the active one, also when the client is null** -/
+theorem iface_set_activates (n : Node) (f : Field) (b : Bytes) (c : Option Nat) (d : Nat) (hd : f.disc = some d) (hd16 : d < 65536) :
+    tagOk n f (setIface n f b c).1 = true := by
+  unfold setIface tagOk setTag
+  rw [hd]
+  simp only
+  rw [getU_setU b (tagOff n) 2 d (by omega)]
+  simp
+
+/-- the variant that stores the discriminant after the null-client return leaves another member active -/
+theorem iface_late_tag_stale :
+    ∃ (n : Node) (f : Field) (b : Bytes), f.disc = some 1 ∧ tagOk n f (setIfaceLate n f b none).1 = false :=
+  ⟨{ dataWords := 1, ptrs := 1, discOffset := 0 }, { kind := .ptr, offset := 0, mask := 0, disc := some 1 }, fun _ => 0, rfl, by decide⟩
+
 /-- **generated struct sizes match the schema** -/
 theorem sizes (n : Node) : objectSize n = (n.dataWords * 8, n.ptrs) := rfl
 
